@@ -42,17 +42,47 @@ Proof.
 Qed.
 Print Assumptions C02_identity_exact_refuted_unrepaired.
 
-(* The CURRENT code (not repaired; reported): a server name that moves between two LIVE clusters keeps the
-   decision cache of its previous owner (the cache is keyed by host, its lifetime is tied to the cluster
-   that created it).  History H1: alias h of cluster a (allows alice>bob) is given to cluster b (denies);
-   within the allow-TTL the request via h is forwarded to b without b's authorizer being asked.  So the
-   hypothesis "no live move" of C02_decision_of_current_cluster cannot be dropped. *)
-Theorem C02_live_move_refuted :
+(* The defect repaired by 95b80b4, kept as a refutation of the UNREPAIRED model: the decision cache was keyed
+   by HOST alone and dropped only when the cluster that created it stopped.  A server name moving between two
+   live clusters kept the previous owner's cached decisions (history H1). *)
+Definition hcaches_u := list (string * (Z * entries)).
+Definition do_request_unrepaired (attl dttl : Z) (w : world) (cs : hcaches_u) (host requestor imp : string) : hcaches_u * hobs :=
+  match owner w host with
+  | None => (cs, mkHObs true 503 [] [])
+  | Some (id, p) =>
+      let q := (requestor, imp) in
+      let ce := match aget host cs with Some ce => ce | None => (id, []) end in
+      match (match eget q (snd ce) with
+             | Some (allowed, exp) => if Z.leb (w_now w) exp then Some allowed else None
+             | None => None end) with
+      | Some allowed => (aset host ce cs, if allowed then mkHObs true 200 [(id, [imp])] [] else mkHObs true 403 [] [])
+      | None =>
+          match answer_of p q with
+          | AAllow => (aset host (fst ce, eset q (true, w_now w + attl) (snd ce)) cs, mkHObs true 200 [(id, [imp])] [(id, q, AAllow)])
+          | ADeny => (aset host (fst ce, eset q (false, w_now w + dttl) (snd ce)) cs, mkHObs true 403 [] [(id, q, ADeny)])
+          | AError => (aset host (fst ce, edel q (snd ce)) cs, mkHObs true 403 [] [(id, q, AError)])
+          end
+      end
+  end.
+Fixpoint hrun_unrepaired (attl dttl : Z) (w : world) (cs : hcaches_u) (ops : list hop) : list hobs :=
+  match ops with
+  | [] => []
+  | HReq host requestor imp :: r =>
+      let (cs', b) := do_request_unrepaired attl dttl w cs host requestor imp in b :: hrun_unrepaired attl dttl w cs' r
+  | HDelete c :: r =>
+      let cs' := match aget c (w_live w) with
+                 | Some (id, _) => filter (fun hc => negb (Z.eqb (fst (snd hc)) id)) cs
+                 | None => cs end in
+      mkHObs (snd (wstep w (HDelete c))) 0 [] [] :: hrun_unrepaired attl dttl (fst (wstep w (HDelete c))) cs' r
+  | o :: r => mkHObs (snd (wstep w o)) 0 [] [] :: hrun_unrepaired attl dttl (fst (wstep w o)) cs r
+  end.
+
+Theorem C02_decision_of_current_cluster_refuted_host_keyed :
   exists attl dttl ops,
-    hcheck attl world0 [] (combine ops (hrun attl dttl hstate0 ops)) <> (true, true).
+    hcheck attl world0 [] (combine ops (hrun_unrepaired attl dttl world0 [] ops)) <> (true, true).
 Proof.
   exists 300, 30, [HCreate "a" ["h"] [(("alice", "bob"), AAllow)]; HCreate "b" [] [(("alice", "bob"), ADeny)];
                    HReq "h" "alice" "bob"; HMove "h" "a" "b"; HReq "h" "alice" "bob"].
   vm_compute. discriminate.
 Qed.
-Print Assumptions C02_live_move_refuted.
+Print Assumptions C02_decision_of_current_cluster_refuted_host_keyed.
